@@ -150,7 +150,16 @@ func c14File(feature int, withService bool) (*protogen.File, string) {
 		file.Messages = append(file.Messages, text, image)
 		suffix = "_oneof_discriminator.pb.go"
 	}
-	file.Messages = append(file.Messages, m, w.child)
+	if verif.Bool("annotatedMessageIsNested") {
+		// the annotated message is declared inside a message that carries no annotation itself
+		outer := verif.NewMessage("acme.v1", "Outer")
+		verif.AddField(outer, &verif.FieldDesc{FName: "label", FJSON: "label", FKind: protoreflect.StringKind, FNumber: 1, FOpts: c14Opts(nil)}, "Label")
+		outer.Messages = []*protogen.Message{m}
+		file.Messages = append(file.Messages, outer, w.child)
+		verif.Reach("C14/nested")
+	} else {
+		file.Messages = append(file.Messages, m, w.child)
+	}
 	if withService {
 		req := verif.NewMessage("acme.v1", "PingRequest")
 		verif.AddField(req, &verif.FieldDesc{FName: "id", FJSON: "id", FKind: protoreflect.StringKind, FNumber: 1, FOpts: c14Opts(nil)}, "Id")
